@@ -11,8 +11,9 @@ def gen_cases(module, constants, out_path, workdir, timeout=1800):
     """Runs spec/<module>.tla (ASSUME ndJsonSerialize(IOEnv.ZV_OUT, ...))."""
     cfg = "INIT Init\nNEXT Next\nCONSTANTS\n" + "".join("  %s = %s\n" % (k, tla(v)) for k, v in constants.items())
     mod = "---- MODULE %sRun ----\nEXTENDS %s\n====\n" % (module, module)
+    # (TLC refuses to build sets of more than a million elements unless told otherwise)
     r = run_tlc(mod, module + "Run", cfg, workdir, workers=4, timeout=timeout, env={"ZV_OUT": out_path},
-                java_opts="-Xss64m")
+                java_opts="-Xss64m", extra=["-maxSetSize", "60000000"])
     m = re.search(r'<<"ZVGEN", (.*)>>', r.out)
     if not m or not os.path.exists(out_path):
         open(os.path.join(common.SCRATCH_ROOT, "last_tlc_failure.out"), "w").write(r.out)
